@@ -126,13 +126,18 @@ where CL03<CS>: Scheme<PubKey = CL03PublicKey, PrivKey = CL03SecretKey>, CS::Has
                 if !r.u.is_empty() {
                     let m_o = distinct_attrs(seed, "c15-other-credential", n);
                     if let O::Ok((_s2, q)) = honest::<CS>(w, n, &m_o, &r.u) {
-                        let (mut x, qj) = (to_json(&p), to_json(&q));
-                        for key in ["proofs_commited_mi", "range_proofs_commited_mi"] { x["CL03"][key] = qj["CL03"][key].clone(); }
-                        let name = "per-attribute sub-proofs and range proofs taken from a proof about another credential";
-                        if env.ctx.state(&[r.id.as_bytes(), name.as_bytes()]) {
-                            let got = match from_json::<Pok<CS>>(&x) { Some(z) => verify::<CS>(&z, &cpk, &w.pk, &bases, &revealed, &r.u, n), None => O::Ok(false) };
-                            expect_bool(env, &r.id, &format!("proof_verify with [{}]", name), &got, false, true, "sub-proof-transplant", json!({"base": det0, "edit": name}));
-                            env.ctx.class("sub-proof-transplant"); env.ctx.trace();
+                        let qj = to_json(&q);
+                        for (name, cls, keys) in [("per-attribute sub-proofs and range proofs taken from a proof about another credential", "sub-proof-transplant", vec!["proofs_commited_mi", "range_proofs_commited_mi"]),
+                                             ("range proofs of the hidden attributes taken from a proof about another credential", "sub-proof-transplant:range-proofs-only", vec!["range_proofs_commited_mi"]),
+                                             ("per-attribute sub-proofs (without their range proofs) taken from a proof about another credential", "sub-proof-transplant:sub-proofs-only", vec!["proofs_commited_mi"]),
+                                             ("range proof of e taken from a proof about another credential", "sub-proof-transplant:range-proof-e", vec!["range_proof_e"])] {
+                            let mut x = to_json(&p);
+                            for key in keys { x["CL03"][key] = qj["CL03"][key].clone(); }
+                            if env.ctx.state(&[r.id.as_bytes(), name.as_bytes()]) {
+                                let got = match from_json::<Pok<CS>>(&x) { Some(z) => verify::<CS>(&z, &cpk, &w.pk, &bases, &revealed, &r.u, n), None => O::Ok(false) };
+                                expect_bool(env, &r.id, &format!("proof_verify with [{}]", name), &got, false, true, cls, json!({"base": det0, "edit": name}));
+                                env.ctx.class("sub-proof-transplant"); env.ctx.trace();
+                            }
                         }
                     }
                 }
